@@ -436,6 +436,11 @@ func (term *TermInvoke) Operands() []*value.Value {
 	}
 	ops = append(ops, &term.NormalRetTarget)
 	ops = append(ops, &term.ExceptionRetTarget)
+	for _, operandBundle := range term.OperandBundles {
+		for i := range operandBundle.Inputs {
+			ops = append(ops, &operandBundle.Inputs[i])
+		}
+	}
 	return ops
 }
 
@@ -602,6 +607,11 @@ func (term *TermCallBr) Operands() []*value.Value {
 	ops = append(ops, &term.NormalRetTarget)
 	for i := range term.OtherRetTargets {
 		ops = append(ops, &term.OtherRetTargets[i])
+	}
+	for _, operandBundle := range term.OperandBundles {
+		for i := range operandBundle.Inputs {
+			ops = append(ops, &operandBundle.Inputs[i])
+		}
 	}
 	return ops
 }
